@@ -160,3 +160,24 @@ __CPROVER_assigns(NN(NBR(u, i))->d, NN(NBR(u, i))->p)
 ;
 void h_relax(void) { void *u, *heap; unsigned i; w_relax(u, i, heap); VERIF_CANARY; }
 #endif
+
+/* ------------------------------------------------------------ johnsons: row k of the matrix is dijkstra's answer for source k */
+#if defined(JOB_johnsons_body)
+/* loop-body fragment for ONE arbitrary source k, dijkstra behind a contract over ghost cells: for the ghost node j,
+ * dijkstra(k, ..) stores verif_sp (the shortest-path length k -> j; 0 when j == k) in d[j].  The body must leave exactly
+ * that in D[k][j] -- in particular a zero on the diagonal -- whatever the graph looks like. */
+size_t verif_j; long long verif_sp;
+void w_dijkstra(unsigned s, void *vs, long long *d)
+__CPROVER_ensures(d[verif_j] == verif_sp)
+__CPROVER_assigns(__CPROVER_object_whole(d))
+;
+void w_johnsons_body(unsigned n, long long **D, void *vs, unsigned k)
+__CPROVER_requires(n >= 1 && n <= 8 && k < n && verif_j < n)
+__CPROVER_requires(__CPROVER_is_fresh(D, n * sizeof(long long *)) && __CPROVER_is_fresh(D[k], n * sizeof(long long)))
+__CPROVER_requires(__CPROVER_is_fresh(vs, sizeof(struct vec)) && ((struct vec *)vs)->n == n && __CPROVER_is_fresh(((struct vec *)vs)->d, n * 72))
+__CPROVER_requires(verif_j != k || verif_sp == 0)
+__CPROVER_ensures(D[k][verif_j] == verif_sp)
+__CPROVER_assigns(__CPROVER_object_whole(D[k]))
+;
+void h_johnsons_body(void) { unsigned n, k; long long **D; void *vs; w_johnsons_body(n, D, vs, k); VERIF_CANARY; }
+#endif
